@@ -493,10 +493,16 @@ def rule_inert_members(ctx, rule='R05.9'):
                 if ifs.get('kind') != 'IfStmt':
                     continue
                 reads = set()
+                from . import c04 as _c04
                 for m in walk(ifs['inner'][0]):
                     # latches only: integer members; the pointer-valued ones are handles owned by the message/display/server code
                     if m.get('kind') == 'MemberExpr' and m.get('name') in inert and 'reb_simulation' in qtype(strip(m['inner'][0])) and '*' not in qtype(m):
                         reads.add(m['name'])
+                    elif m.get('kind') == 'MemberExpr' and '*' not in qtype(m):
+                        # latches that live in a member struct (ri_whfast.<latch>), reached through r-> or through a pointer to that struct
+                        ap = _c04._access_path(m)
+                        if ap and ap.startswith('r.') and ap[2:] in inert:
+                            reads.add(ap[2:])
                 if not reads:
                     continue
                 n += 1
@@ -533,6 +539,13 @@ def rule_inert_members(ctx, rule='R05.9'):
                             tgt = lv.get('name') if lv.get('kind') == 'MemberExpr' else None
                             if lv.get('kind') == 'MemberExpr' and tgt not in inert and 'reb_simulation' in qtype(strip(lv['inner'][0])):
                                 bad = 'write to r->%s' % tgt
+                            elif lv.get('kind') == 'MemberExpr':
+                                ap_ = _c04._access_path(lv)
+                                if ap_ and ap_.startswith('r.') and ap_[2:] not in inert and not any(ap_[2:] == k_ or ap_[2:].startswith(k_ + '.') for k_ in inert):
+                                    bad = 'write to r->%s' % ap_[2:]
+                        elif k == 'CallExpr' and callee_name(x) and callee_name(x).startswith('reb_') and callee_name(x) not in ('reb_simulation_warning', 'reb_simulation_error', 'reb_message') \
+                                and any(render(a_).strip() == 'r' for a_ in call_args(x)):
+                            bad = 'call of %s(r, ...)' % callee_name(x)
                         if bad:
                             ctx.report(rule, '%s:%s:%s' % (fname, sorted(reads)[0], bad.split(' ')[0]), where,
                                        'the test of r->%s (not persisted: %s) guards a %s: the running simulation and one restored from a snapshot, where the member starts out cleared, take different paths'
